@@ -45,6 +45,8 @@ class Harness:
         self.notes = []
         self.t_gen = 0.0
         self.structural_failures = []
+        self.property_id = None     # set by the property driver; None (self-test, ad-hoc runs) keeps every clause
+        self.skipped_clauses = 0
         self.vacuous = []               # runs that produced no obligation at all (checker fault)   # obligations decided without a solver (concrete False)
 
     # ------------------------------------------------------------------ extraction
@@ -145,12 +147,17 @@ class Harness:
         # an exception that escapes the contract body on some path is either a gap of the object models or a crash the
         # change introduced: that path is undecided (out-of-subset), never silently dropped
         for r in results:
+            if r.outcome == 'oos':
+                why = str(r.value)[:200]
+                if (base, why) not in self.out_of_subset:
+                    self.out_of_subset.append((base, why))
+                fuc.out_of_subset = why
             if r.outcome == 'raise' and 'expected-raise' not in r.ctx.notes:
                 why = f'a path raised {type(r.value).__name__}: {r.value}'[:200]
                 if (base, why) not in self.out_of_subset:
                     self.out_of_subset.append((base, why))
                 fuc.out_of_subset = why
-        all_unexpected = results and all(r.outcome == 'raise' and 'expected-raise' not in r.ctx.notes for r in results)
+        all_unexpected = results and all(r.outcome == 'oos' or (r.outcome == 'raise' and 'expected-raise' not in r.ctx.notes) for r in results)
         if not any(r.ctx.obligations for r in results) and not all_unexpected:
             why = '; '.join(sorted({f'{type(r.value).__name__}: {r.value}'[:160] for r in results if r.outcome == 'raise'}))
             self.vacuous.append(base + (f' [every path raised: {why}]' if why else ''))
@@ -161,6 +168,13 @@ class Harness:
         return results
 
     def add_obligation(self, name, o, fuc=None):
+        # a clause marked only(Cxx[,Cyy]) belongs to those properties alone: contracts shared between properties emit it, the
+        # check of any other property drops it (e.g. "a cached pattern is not regenerated" is C10's, not C02's)
+        import re
+        m = re.match(r'only\(([^)]*)\): ', getattr(o, 'name', '') or '')
+        if m and self.property_id is not None and self.property_id not in [x.strip() for x in m.group(1).split(',')]:
+            self.skipped_clauses += 1
+            return
         g = z3.simplify(o.goal) if not isinstance(o.goal, bool) else z3.BoolVal(o.goal)
         if z3.is_true(g):
             # trivially true after simplification: still counted (discharged by the z3 simplifier)
